@@ -135,6 +135,9 @@ func (w *rWorld) apply(op rOp) (ret string, applicable bool) {
 		if needRes && o.impl == "type" {
 			return "", false
 		}
+		if op.Op == "TypeRename" && o.impl != "soft" {
+			return "", false
+		}
 		if !needRes && o.impl == "wrap" {
 			return "", false
 		}
@@ -148,7 +151,11 @@ func (w *rWorld) apply(op rOp) (ret string, applicable bool) {
 			if op.Impl == "soft" && op.TName == "" && len(op.Fields) == 0 {
 				res = &jsonapi.SoftResource{} // no type at all: the zero value of the Go type
 			}
-			if op.Impl == "soft" && w.built && op.TName != "" {
+			loose := false // (a relationship without a target type cannot be written as a struct tag)
+			for _, d := range op.Fields {
+				loose = loose || (d.Kind == "rel" && d.TT == "")
+			}
+			if op.Impl == "soft" && w.built && op.TName != "" && !loose {
 				// a soft resource over a type that BuildType made from the struct with the same fields
 				bt, err := jsonapi.BuildType(reflect.New(structType(op.TName, op.Fields, w.km)).Interface())
 				must(err)
@@ -332,6 +339,32 @@ func (w *rWorld) apply(op rOp) (ret string, applicable bool) {
 				sr.AddAttr(w.km.attr(op.F, op.Def))
 			} else {
 				sr.AddRel(relOf(sr.GetType().Name, op.F, op.Def))
+			}
+		case "TypeRename":
+			// the type itself is edited, twice; no method of the resource runs in between
+			typ := o.res.(*jsonapi.SoftResource).Type
+			if typ == nil {
+				applicable = false
+				return
+			}
+			_, isA := typ.Attrs[op.F]
+			_, isR := typ.Rels[op.F]
+			_, hasA := typ.Attrs[op.ID]
+			_, hasR := typ.Rels[op.ID]
+			if !(isA || isR) || hasA || hasR {
+				applicable = false // (the model offers the edit for a field the type has and a name it lacks)
+				return
+			}
+			typ.RemoveAttr(op.F)
+			typ.RemoveRel(op.F)
+			if op.Def.Kind == "attr" {
+				if err := typ.AddAttr(w.km.attr(op.ID, op.Def)); err != nil {
+					panic(err)
+				}
+			} else {
+				if err := typ.AddRel(relOf(typ.Name, op.ID, op.Def)); err != nil {
+					panic(err)
+				}
 			}
 		case "RemoveField":
 			if o.impl == "type" {
@@ -641,7 +674,7 @@ func resourceMain(args []string) {
 				for _, op2 := range alpha {
 					switch op2.Op {
 					case "TypeEdit":
-					case "AddField", "RemoveField", "MutSlice":
+					case "AddField", "RemoveField", "MutSlice", "TypeRename":
 						if op2.H != op.H && op2.H != len(ev.Post) {
 							continue
 						}
